@@ -29,12 +29,12 @@ ASSUMPTIONS = ["'conflict' = two link definitions producing the same (section, o
 CASE_TIMEOUT = 120
 WALL = {"quick": 900, "thorough": 7200}
 REQUIRED = {"relabel_runs": 500, "permute_runs": 200, "history_runs": 200, "repeat_runs": 200, "file_order_runs": 30,
-            "mixed_nrexcl_cases": 50, "fragment_cases": 20}
+            "mixed_nrexcl_cases": 50, "fragment_cases": 20, "file_order_runs_unrestricted": 40}
 
 
 def plan(tier, seed):
     n = 900 if tier == "quick" else 20000
-    return [["meta", i] for i in range(n)]
+    return [["meta", i] for i in range(n)] + [["fileorder", i] for i in range(n // 6)]
 
 
 def setup():
@@ -105,8 +105,40 @@ def conflicts(ref_stats_case):
     return ref_stats_case
 
 
+def run_fileorder(cid, rng, workdir, res):
+    """input-file order with force fields whose .ff part carries pairs / exclusions / impropers and explicit version
+    tags: an .itp that is read later re-derives bond edges from *every* interaction type and rewrites the version tags
+    of everything already loaded (see known finding)"""
+    case = paramcase.build(rng, profile="full", layouts=["ff+itp", "itp+ff"], unrestricted_ff_sections=True, nmin=2, nmax=6,
+                           max_links=3, link_opts={"p_version": 0.4, "p_nonedge": 0.0, "p_pattern": 0.0})
+    res["sig"] = sig_of([case["files"], case["graph"]])
+    res["sample"] = case["descr"]
+    if len(case["inpath"]) != 2:
+        res["status"] = "rejected"
+        return res
+    paramcase.write_case(case, workdir)
+    r1, p1 = run(case, workdir, "case.json", "a.itp")
+    if r1["status"] != "ok":
+        res["status"] = "rejected"
+        return res
+    base = canon(p1)
+    r2, p2 = run(dict(case, inpath=list(reversed(case["inpath"]))), workdir, "case.json", "b.itp")
+    bump(res, "file_order_runs_unrestricted")
+    res["nontrivial"] = True
+    if r2["status"] != "ok":
+        violation(res, "file-order-rejected:%s" % r2.get("exc_type"), "reversed input file order rejected: %s" % r2["error"], PC.witness(case))
+        return res
+    d = first_diff(base, canon(p2))
+    if d:
+        violation(res, "file-order-changes-output:itp-finalisation-rewrites-earlier-definitions",
+                  "output differs when the .itp file is read before / after the .ff file: %s" % d, PC.witness(case))
+    return res
+
+
 def run_case(cid, rng, workdir):
     res = new_result()
+    if cid[0] == "fileorder":
+        return run_fileorder(cid, rng, workdir, res)
     neutral = rng.random() < 0.35
     kw = dict(nmin=2, nmax=7, max_links=4, link_opts={"p_remove": 0.05, "p_replace": 0.15, "p_edge": 0.15,
                                                       "linktypes": True, "p_nonedge": 0.0})
